@@ -7,7 +7,7 @@ import sys
 import traceback
 
 from .core import Ctx
-from .env import BUILD, EVIDENCE, SPECS, MachineryError
+from .env import BUILD, EVIDENCE, SPECS, DriverHang, MachineryError
 
 
 def setup():
@@ -61,7 +61,10 @@ def main():
             sys.exit(replay(pid, a.replay))
         mod = importlib.import_module(f"harness.props.{pid.lower()}")
         ctx = Ctx(pid, a.tier)
-        mod.run(ctx)
+        try:
+            mod.run(ctx)
+        except DriverHang:
+            pass        # already reported as a violation (Reject:Timeout); the evidence says what had been covered until then
         sys.exit(ctx.finish(**getattr(mod, "FINISH", {})))
     except MachineryError as e:
         print(f"MACHINERY-FAILURE {pid}: {e}", file=sys.stderr)
